@@ -139,6 +139,12 @@ def step (s : St) (op impl : String) : St × StepOut :=
         fails := fails ++ [("spurious_key_update_error", "-", s!"gen={q.gen} phase={g.phase}")]
       if authentic && q.gen == g.phase + 1 && qkp ≠ g.phase % 2 && !isOld && tooQuick && implHead ≠ "E:keyupdate" then
         fails := fails ++ [("remote_update_too_quick_accepted", "-", s!"phase={g.phase} result={implHead}")]
+      -- RFC 9001 §6.6: at the limit the failure must be reported as AEAD_LIMIT_REACHED
+      let implIC := implInt impl "ic=" 0
+      if implHead == "E:decrypt" && implIC ≥ s.env.invalidPacketLimit then
+        fails := fails ++ [("aead_limit_enforced", "-", s!"invalid packet count {implIC} >= limit {s.env.invalidPacketLimit} but plain decryption failure reported")]
+      if implHead == "E:aeadlimit" && implIC < s.env.invalidPacketLimit then
+        fails := fails ++ [("aead_limit_enforced", "-", s!"AEAD_LIMIT_REACHED at count {implIC} < limit {s.env.invalidPacketLimit}")]
       let mut g := g
       if implPhase > g.phase then
         -- the implementation accepted a REMOTE key update
